@@ -205,7 +205,42 @@ def tmpl_severity(rng, nodes, lits):
     return [parent] + props
 
 
+def tmpl_custom(rng, nodes, lits):
+    """a shape with a (mostly failing) SPARQL-based constraint component and/or sh:sparql constraint next to
+    core constraints and sibling property shapes of other severities"""
+    from . import sparqlgen as SG
+    u = _uid(rng)
+    iri_nodes = [n for n in nodes if isinstance(n, URIRef)]
+    parent = new_shape(EX["CP%s" % u], None)
+    parent["sev"] = rng.choice([SH.Info, SH.Warning, None, SH.Violation])
+    parent["targets"]["nodes"] = rng.sample(iri_nodes, min(2, len(iri_nodes)))
+    out = [parent]
+    if rng.random() < 0.7:
+        ps = new_shape(BNode("cpp%s" % u), ("pred", rng.choice(PREDS)))
+        ps["sev"] = rng.choice([None, None, SH.Warning, SH.Info])
+        ps["comps"].append(rng.choice([("mincount", 4), ("hasvalue", [EX.absent])]))
+        parent["comps"].append(("property", [ps["id"]]))
+        out.append(ps)
+    if rng.random() < 0.4:
+        parent["comps"].append(gen_leaf(rng, False, nodes, lits))
+    if rng.random() < 0.6:
+        cc = SG.gen_custom(rng, 0, iri_nodes + lits)
+        if cc["kind"] == "select":
+            cc["query"], cc["needs_prop"] = SG.CSELECTS[1]
+        parent["comps"].append(("custom", cc))
+    if rng.random() < 0.5:
+        sc = SG.gen_sparql_constraint(rng, False)
+        while any(f in sc["select"] for f in ("MINUS", "VALUES", "SERVICE", "AS ?this", "{ SELECT", "?failure")):
+            sc = SG.gen_sparql_constraint(rng, False)
+        parent["comps"].insert(rng.randint(0, len(parent["comps"])), ("sparql", [sc]))
+    # custom components run after the core ones: keep them last in the model's component list
+    parent["comps"].sort(key=lambda c: c[0] == "custom")
+    return out
+
+
 def add_templates(rng, shapes, nodes, lits, p=0.5):
+    if rng.random() < p:
+        shapes.extend(tmpl_custom(rng, nodes, lits))
     if rng.random() < p:
         shapes.extend(tmpl_qualified(rng, nodes, lits))
     if rng.random() < p:
@@ -279,6 +314,12 @@ def shapes_to_rdf(shapes, explicit_types=True):
                     g.add((n, SH.qualifiedMaxCount, Literal(c[3])))
                 if c[4]:
                     g.add((n, SH.qualifiedValueShapesDisjoint, Literal(True)))
+            elif k == "sparql":
+                from . import sparqlgen
+                sparqlgen.sparql_to_rdf(g, n, c)
+            elif k == "custom":
+                from . import sparqlgen
+                sparqlgen.custom_to_rdf(g, n, c)
             else:
                 from . import leaves
                 if not leaves.leaf_to_rdf(g, n, c):
@@ -286,8 +327,11 @@ def shapes_to_rdf(shapes, explicit_types=True):
     return g
 
 
-def comp_to_coq(I, c, W=None, value_terms=()):
+def comp_to_coq(I, c, W=None, value_terms=(), ctx=None):
     k = c[0]
+    if k in ("sparql", "custom"):
+        from . import sparqlgen
+        return sparqlgen.comp_to_coq(I, c, ctx["shape"], ctx["data"], ctx["foci"])
     if W is not None:
         from . import leaves
         r = leaves.leaf_to_coq(I, W, c, value_terms)
@@ -319,7 +363,9 @@ def comp_to_coq(I, c, W=None, value_terms=()):
     raise ValueError(k)
 
 
-def shape_to_coq(I, s, W=None, value_terms=()):
+def shape_to_coq(I, s, W=None, value_terms=(), ctx=None):
+    if ctx is not None:
+        ctx = dict(ctx, shape=s)
     t = s["targets"]
     sev = s["sev"] if s["sev"] is not None else SH.Violation
     return (
@@ -336,13 +382,13 @@ def shape_to_coq(I, s, W=None, value_terms=()):
             I.terms(t["classes"]),
             I.terms(t["subjects_of"]),
             I.terms(t["objects_of"]),
-            "; ".join("(%s)" % comp_to_coq(I, c, W, value_terms) for c in s["comps"]),
+            "; ".join("(%s)" % comp_to_coq(I, c, W, value_terms, ctx) for c in s["comps"]),
         )
     )
 
 
-def env_to_coq(I, shapes, W=None, value_terms=()):
-    return "[" + ";\n   ".join(shape_to_coq(I, s, W, value_terms) for s in shapes) + "]"
+def env_to_coq(I, shapes, W=None, value_terms=(), ctx=None):
+    return "[" + ";\n   ".join(shape_to_coq(I, s, W, value_terms, ctx) for s in shapes) + "]"
 
 
 def opts_to_coq(I, o):
@@ -377,7 +423,8 @@ def parse_result(rg, r):
     # an IRI path is compared as such; a complex path (copied blank-node structure) only by its presence
     path = None if not paths else (paths[0] if isinstance(paths[0], URIRef) else "complex")
     msgs = sorted(rg.objects(r, SH.resultMessage), key=lambda m: m.n3())
-    return (focus, vals[0] if vals else None, comp, src, sev, details, path, len(vals), len(paths), msgs)
+    scs = list(rg.objects(r, SH.sourceConstraint))
+    return (focus, vals[0] if vals else None, comp, src, sev, details, path, len(vals), len(paths), msgs, scs)
 
 
 def parse_report(rg):
@@ -389,7 +436,7 @@ def parse_report(rg):
 def result_to_coq(I, r, declared=None):
     f, v, comp, src, sev, details, path = r[:7]
     # only declared sh:message values are compared; auto-generated default messages are dropped
-    msgs = r[9] if (declared and declared.get(src)) else []
+    msgs = r[9] if (declared and (declared.get(src) or any(declared.get(x) for x in r[10]) or declared.get(comp))) else []
     return "VR (%s) %s %s %d (%s) (%s) %s [%s]" % (
         I.term(f),
         enc.coq_opt(I.term(v)) if v is not None else "None",
@@ -416,6 +463,13 @@ def run_validate(data_graph, shapes_graph, **opts):
 
 def observed_to_coq(I, obs, shapes=None):
     declared = {s["id"]: bool(s.get("msgs")) for s in (shapes or [])}
+    for s in shapes or []:
+        for c in s["comps"]:
+            if c[0] == "sparql":
+                for sc in c[1]:
+                    declared[sc["node"]] = bool(sc["msgs"])
+            elif c[0] == "custom":
+                declared[c[1]["node"]] = bool(c[1]["msgs"])
     if obs[0] == "err":
         if obs[1].startswith("RAW:") or obs[1] in ("ValFailure", "RuleLoad"):
             return None
